@@ -1,6 +1,8 @@
 import TR.Lemmas.Chaos
 import TR.Lemmas.ChaosStress
 import TR.Lemmas.ChaosHandles
+import TR.Lemmas.ChaosTrace
+import TR.Lemmas.ChaosInjector
 /-!
 # C19 — chaos injection is reproducible and bounded; injected errors skip the inner call
 
@@ -102,13 +104,16 @@ theorem inner_call_only_without_error (cfg : Cfg) (ops : List Op) (c k : Nat)
   inner_call_decision cfg ops c k h
 
 /-- The first poll of a request whose decision is "inject": the configured error is the
-result of that very poll, no serial is consumed (no inner call), no timer is started. -/
+result of that very poll (the only line after the harness's `first_poll` line, at the same instant), no serial is
+consumed (no inner call), no timer is started. -/
 theorem error_result_immediate (cfg : Cfg) (s : State) (c k tag : Nat) (st : Step)
     (hph : lookup s.phase c = some (.fresh k tag st)) (ha : allowedDec cfg .error = true) :
-    (stepS cfg s (.poll c (some .error))).log = s.log ++ [.result c (injected tag)] ∧
+    (stepS cfg s (.poll c (some .error))).log = s.log ++ [(TEv.firstPoll c k).toEv, .result c (injected tag)] ∧
+    (stepS cfg s (.poll c (some .error))).tlog =
+      s.tlog ++ [(s.now, .firstPoll c k), (s.now, .ev (.result c (injected tag)))] ∧
     (stepS cfg s (.poll c (some .error))).serial = s.serial ∧
     lookup (stepS cfg s (.poll c (some .error))).phase c = some .done := by
-  simp [stepS, hph, pollFresh, enact, checked, ha, record, emit, setPhase, lookup]
+  simp [stepS, hph, pollFresh, enact, checked, ha, record, emit, mark, setPhase, lookup]
 
 /-- The same for the machine fed from streams: no request decided "inject" has an inner call. -/
 theorem error_skips_inner_stream (σ : Nat → Nat → Decision) (cfg : Cfg) (ops : List ROp) (c k : Nat)
@@ -131,15 +136,17 @@ theorem transparent_at_zero (cfg : Cfg) (d : Decision) (he : cfg.eT = 0) (hl : c
 theorem transparent_first_poll (cfg : Cfg) (s : State) (c k tag : Nat) (st : Step) (d : Decision)
     (he : cfg.eT = 0) (hl : cfg.lT = 0) (hph : lookup s.phase c = some (.fresh k tag st))
     (ha : allowedDec cfg d = true) :
-    stepS cfg s (.poll c (some d)) = startInner (record s c k .pass) c st ∧
-    ∃ rest, (stepS cfg s (.poll c (some d))).log = s.log ++ Ev.innerCall c s.serial :: rest := by
+    stepS cfg s (.poll c (some d)) = startInner (record (mark s c k) c k .pass) c st ∧
+    ∃ rest, (stepS cfg s (.poll c (some d))).log =
+      s.log ++ (TEv.firstPoll c k).toEv :: Ev.innerCall c s.serial :: rest := by
   have hd := transparent_at_zero cfg d he hl ha
   subst hd
-  have h1 : stepS cfg s (.poll c (some .pass)) = startInner (record s c k .pass) c st := by
+  have h1 : stepS cfg s (.poll c (some .pass)) = startInner (record (mark s c k) c k .pass) c st := by
     simp [stepS, hph, pollFresh, enact, checked, ha]
   refine ⟨h1, ?_⟩
   rw [h1]
-  exact startInner_log (record s c k .pass) c st
+  obtain ⟨rest, h⟩ := startInner_log (record (mark s c k) c k .pass) c st
+  exact ⟨rest, by rw [h]; simp [record, mark]⟩
 
 /-- In every run with both rates 0 (reported decisions within the boundary clauses) every recorded decision is
 "pass". -/
@@ -218,10 +225,11 @@ theorem latency_exact (cfg : Cfg) (s : State) (c u : Nat) (st : Step) (d : Optio
 first-poll instant + `ms`. -/
 theorem latency_sleep_set (cfg : Cfg) (s : State) (c k tag ms : Nat) (st : Step)
     (hph : lookup s.phase c = some (.fresh k tag st)) (ha : allowedDec cfg (.latency ms) = true) (hpos : ms > 0) :
-    (stepS cfg s (.poll c (some (.latency ms)))).log = s.log ∧
+    (stepS cfg s (.poll c (some (.latency ms)))).log = s.log ++ [(TEv.firstPoll c k).toEv] ∧
+    (stepS cfg s (.poll c (some (.latency ms)))).tlog = s.tlog ++ [(s.now, .firstPoll c k)] ∧
     lookup (stepS cfg s (.poll c (some (.latency ms)))).phase c = some (.sleeping (s.now + ms) st) := by
-  have : ¬ (s.now ≥ s.now + ms) := by omega
-  simp [stepS, hph, pollFresh, enact, checked, ha, record, pollSleeping, setPhase, lookup, this]
+  have : ¬ (s.now + ms ≤ s.now) := by omega
+  simp [stepS, hph, pollFresh, enact, checked, ha, record, pollSleeping, setPhase, mark, lookup, this]
 
 /-- Latency rate 1 without an error injector: every request is delayed, by a value within the bounds. -/
 theorem always_delayed_at_one (cfg : Cfg) (d : Decision) (he : cfg.eT = 0) (hl : cfg.lT = P53)
@@ -315,13 +323,14 @@ theorem first_poll_after_handles_dropped (cfg : Cfg) (s : State) (c : Nat) (d : 
 error built from it, nothing is called, nothing sleeps. -/
 theorem always_fails_after_handles_dropped (cfg : Cfg) (s : State) (c k tag : Nat) (st : Step) (d : Decision)
     (he : cfg.eT = P53) (hph : lookup s.phase c = some (.fresh k tag st)) (ha : allowedDec cfg d = true) :
-    (stepS cfg (stepS cfg s .dropsvc) (.poll c (some d))).log = s.log ++ [.result c (injected tag)] ∧
+    (stepS cfg (stepS cfg s .dropsvc) (.poll c (some d))).log =
+      s.log ++ [(TEv.firstPoll c k).toEv, .result c (injected tag)] ∧
     (stepS cfg (stepS cfg s .dropsvc) (.poll c (some d))).serial = s.serial := by
   rw [first_poll_after_handles_dropped]
   have hd := always_fails_at_one cfg d he ha
   subst hd
   have h := error_result_immediate cfg s c k tag st hph ha
-  exact ⟨h.1, h.2.1⟩
+  exact ⟨h.1, h.2.2.1⟩
 
 /-- Once every handle is gone no further request can be made. -/
 theorem no_request_without_handle (cfg : Cfg) (s : State) (c k tag : Nat) (st : Step) :
@@ -423,13 +432,15 @@ theorem transparent_any_caller_mode (cfg : Cfg) (p : Proto) (s : State) (v : Via
     (he : cfg.eT = 0) (hl : cfg.lT = 0) (hg : s.gone = false) (hk : known s c = false) (ha : allowedDec cfg d = true)
     (h : (gate v p.script).1 = true) :
     let r := arriveVia cfg p s v c k tag st
-    (∃ rest, (stepS cfg r.2.1 (.poll c (some d))).log = s.log ++ Ev.innerCall c s.serial :: rest) ∧
+    (∃ rest, (stepS cfg r.2.1 (.poll c (some d))).log =
+      s.log ++ (TEv.firstPoll c k).toEv :: Ev.innerCall c s.serial :: rest) ∧
     (r.1.strict = true → r.1.toEv (Ev.innerCall c s.serial) = Ev.innerCallX c s.serial tag true) := by
   have h1 : (arriveVia cfg p s v c k tag st).2.1 = setPhase s c (.fresh k tag st) := by
     rw [caller_mode_irrelevant cfg p s v c k tag st h]; simp [stepS, hg, hk]
   have hph : lookup (setPhase s c (.fresh k tag st)).phase c = some (.fresh k tag st) := by simp [setPhase, lookup]
   refine ⟨?_, ?_⟩
-  · show ∃ rest, (stepS cfg (arriveVia cfg p s v c k tag st).2.1 (.poll c (some d))).log = _
+  · show ∃ rest, (stepS cfg (arriveVia cfg p s v c k tag st).2.1 (.poll c (some d))).log =
+      s.log ++ (TEv.firstPoll c k).toEv :: Ev.innerCall c s.serial :: rest
     rw [h1]
     exact (transparent_first_poll cfg (setPhase s c (.fresh k tag st)) c k tag st d he hl hph ha).2
   · intro hs
@@ -503,6 +514,320 @@ theorem stress_oracle_sound_today {γ : Type} (G : Gen γ) (cfg : Cfg) (g : γ) 
 theorem tally_complete (l : List Decision) : (tally l).ne + (tally l).nl + (tally l).np = l.length :=
   tally_total l
 
+/-! ## the timestamped event log: decisions and latencies as the log shows them
+
+Everything above is about the ghost fields `decs` / `decOf`. This section ties them to the event log the
+correspondence check compares with the implementation's, line by line and instant by instant: `trace cfg ops` /
+`traceD σ cfg ops` (`State.tlog`) is that log, typed — the events of the common vocabulary and the line
+`first_poll <c> svc=<k>` the harness prints when it polls the call future of a request for the first time.
+Vocabulary: `mine c tr` — the lines of request `c`, with their instants, in log order; `markersOn k tr` — the requests
+with a `first_poll` line on service `k`, in log order (= the order of requests on `k`); `injectedIn tr c` — the log
+shows an injected error for `c`: a `result` line and NO `inner_call` line; `forwardedIn tr c` — an `inner_call` line;
+`Lines x c dec m` — `m` is what decision `dec` dictates for the lines of request `c`:
+`[first_poll@t0, result(injected)@t0]` for "inject"; `first_poll@t0 :: inner_call@t0 :: …` for "pass";
+`[first_poll@t0]` or `first_poll@t0 :: inner_call@t1 :: …` with `t0 + ms ≤ t1` (`= t0 + ms` for `x = true`) for "delay
+by `ms`"; `…` = nothing / `inner_drop` / `inner_done, result` with the inner call's own answer (`Rest`).
+`Timely cfg ops` — the runtime's side of a sleep: no `adv` jumps over the wake-up instant of a request that is asleep
+(the timer fires AT that instant and the woken caller is polled before the clock moves on); `timely_means`. -/
+
+/-- **The typed, timestamped log IS the log**: without the instants it is `State.log`, line for line (the `first_poll`
+line rendered as the harness prints it), and the lines an operation appends are stamped with the instant of the state
+it leads to — the `t=` the driver prints (`Driver.applyStep`) and the correspondence check compares. -/
+theorem trace_is_the_log (cfg : Cfg) (ops : List Op) :
+    (trace cfg ops).map (fun p => p.2.toEv) = (run cfg ops).log ∧
+    ∀ (s : State) (op : Op), ∃ tl : List (Nat × TEv), (stepS cfg s op).tlog = s.tlog ++ tl ∧
+      (stepS cfg s op).log = s.log ++ tl.map (fun p => p.2.toEv) ∧ ∀ p ∈ tl, p.1 = (stepS cfg s op).now :=
+  ⟨synced_reachable cfg ops, step_stamps cfg⟩
+
+/-- the discipline, said without recursion -/
+theorem timely_means (cfg : Cfg) (ops : List Op) :
+    Timely cfg ops ↔ ∀ pre ms post, ops = pre ++ .adv ms :: post → ∀ c u st,
+      lookup (run cfg pre).phase c = some (.sleeping u st) → (run cfg pre).now + ms ≤ u ∨ ms = 0 :=
+  timely_iff cfg ops
+
+/-- **The invariant linking decisions to the log** (every run, whatever decisions are reported): the lines of a
+request — with their instants — are exactly what its recorded decision dictates, in every reachable state (`x = true`:
+under the poll discipline, with the inner call of a delayed request exactly at first poll + latency). -/
+theorem request_lines (x : Bool) (cfg : Cfg) (ops : List Op) (ht : x = true → Timely cfg ops) (c : Nat) :
+    Lines x c (lookup (run cfg ops).decOf c) (mine c (trace cfg ops)) :=
+  lines_of_tstage (tinv_reachable x cfg ops ht c)
+
+/-- **The ghost decisions are readable off the log.** In every run: the recorded decision of a request is "inject"
+iff the log shows an injected error for it — a `result` line and NO `inner_call` line (equivalently: its lines are
+its `first_poll` line and, at the same instant, the error built by the configured function, nothing else); an
+`inner_call` line means a recorded decision other than "inject"; and the ghost list of decisions is the list of the
+`first_poll` lines, in log order: its entry for `first_poll c svc=k` is (`k`, the decision of `c`). -/
+theorem decision_observable (cfg : Cfg) (ops : List Op) (c : Nat) :
+    (lookup (run cfg ops).decOf c = some .error ↔ injectedIn (trace cfg ops) c = true) ∧
+    (lookup (run cfg ops).decOf c = some .error ↔
+      ∃ t0 k tag, mine c (trace cfg ops) = [(t0, .firstPoll c k), (t0, .ev (.result c (injected tag)))]) ∧
+    (forwardedIn (trace cfg ops) c = true → ∃ dec, lookup (run cfg ops).decOf c = some dec ∧ dec ≠ .error) ∧
+    (run cfg ops).decs = (markers (trace cfg ops)).map (fun p => (p.2, dOf (run cfg ops).decOf p.1)) := by
+  have hinv := tinv_reachable false cfg ops (by intro h; cases h)
+  refine ⟨(injectedIn_iff hinv c).symm, ?_, forwardedIn_dec hinv c, aligned_reachable cfg ops⟩
+  have hl := lines_of_tstage (hinv c)
+  constructor
+  · intro hd
+    rw [hd] at hl
+    show ∃ t0 k tag, mine c (run cfg ops).tlog = _
+    generalize mine c (run cfg ops).tlog = m at hl
+    cases hl with
+    | failed t0 k tag => exact ⟨t0, k, tag, rfl⟩
+    | called _ _ _ _ _ _ hs _ => exact absurd hs (by simp [Sched])
+  · rintro ⟨t0, k, tag, hm⟩
+    have hm' : mine c (run cfg ops).tlog = [(t0, .firstPoll c k), (t0, .ev (.result c (injected tag)))] := hm
+    rw [hm'] at hl
+    generalize hdm : lookup (run cfg ops).decOf c = dm at hl
+    cases hl with
+    | failed _ _ _ => rfl
+
+/-- **The sequence of decisions visible in the log is the decision stream, in request order.** Feed the machine from
+ANY family of streams `σ`, drive it with ANY operations. Let `c` be the `i`-th request with a `first_poll` line on
+service `k`. Then the lines of `c` are what `σ k i` dictates (`Lines`): "inject" — the injected error at the instant of
+the first poll and no inner call; "pass" — the inner call in the first poll; "delay by `ms`" — nothing before
+`t0 + ms`. In particular the log shows an injected error for `c` (a `result` and NO `inner_call`) iff `σ k i` is
+"inject", an `inner_call` whenever `σ k i` is "pass", and an `inner_call` only if `σ k i` is not "inject". -/
+theorem log_decisions_are_stream (σ : Nat → Nat → Decision) (cfg : Cfg) (ops : List ROp) (k i c : Nat)
+    (h : (markersOn k (traceD σ cfg ops))[i]? = some c) :
+    Lines false c (some (σ k i)) (mine c (traceD σ cfg ops)) ∧
+    injectedIn (traceD σ cfg ops) c = (σ k i == .error) ∧
+    (σ k i = .pass → forwardedIn (traceD σ cfg ops) c = true) ∧
+    (forwardedIn (traceD σ cfg ops) c = true → σ k i ≠ .error) := by
+  have hl := (fed_request_lines false σ cfg ops (by intro h; cases h) k i c h).2
+  have hv := lines_visible hl
+  exact ⟨hl, hv.1, hv.2.2.1, hv.2.1⟩
+
+/-- …as one equation between sequences: per service, the inject / not-inject verdicts the log shows for the requests
+in the order of their `first_poll` lines ARE the first `n` entries of the service's stream; `n`, the number of
+`first_poll` lines on the service, is the number of decisions taken on it. -/
+theorem log_inject_sequence_is_stream (σ : Nat → Nat → Decision) (cfg : Cfg) (ops : List ROp) (k : Nat) :
+    (markersOn k (traceD σ cfg ops)).map (injectedIn (traceD σ cfg ops)) =
+      (List.range (markersOn k (traceD σ cfg ops)).length).map (fun i => σ k i == .error) ∧
+    (markersOn k (traceD σ cfg ops)).length = (decsOn (runD σ cfg ops) k).length := by
+  constructor
+  · apply List.ext_getElem (by simp)
+    intro i h1 h2
+    simp only [List.getElem_map, List.getElem_range]
+    have hi : i < (markersOn k (traceD σ cfg ops)).length := by simpa using h1
+    exact (log_decisions_are_stream σ cfg ops k i _ (List.getElem?_eq_getElem hi)).2.1
+  · have hal : Aligned (runD σ cfg ops) := by rw [runD_eq_run]; exact aligned_reachable cfg _
+    rw [decsOn_markers hal k, List.length_map]; rfl
+
+/-- **Determinism, over the log.** Two runs under the same streams (two equally seeded instances, driven at different
+instants, with different payloads, polled in different interleavings) with the same number of `first_poll` lines on
+service `k` show the same sequence of injected / not injected requests on `k`. -/
+theorem log_deterministic (σ : Nat → Nat → Decision) (cfg : Cfg) (ops₁ ops₂ : List ROp) (k : Nat)
+    (h : (markersOn k (traceD σ cfg ops₁)).length = (markersOn k (traceD σ cfg ops₂)).length) :
+    (markersOn k (traceD σ cfg ops₁)).map (injectedIn (traceD σ cfg ops₁)) =
+      (markersOn k (traceD σ cfg ops₂)).map (injectedIn (traceD σ cfg ops₂)) := by
+  rw [(log_inject_sequence_is_stream σ cfg ops₁ k).1, (log_inject_sequence_is_stream σ cfg ops₂ k).1, h]
+
+/-! ## injected latency, observed -/
+
+/-- **The observable of an injected latency**: instant of the `inner_call` line − instant of the `first_poll` line.
+For the `i`-th request first polled on service `k`: if `σ k i` is "pass" the inner call is at the instant of the first
+poll; if it is "delay by `ms`" the inner call is not earlier than `ms` after the first poll — for every schedule of
+polls and clock advances; and there is no inner call at all if it is "inject". -/
+theorem observed_latency_at_least (σ : Nat → Nat → Decision) (cfg : Cfg) (ops : List ROp) (k i c t0 k' t1 j : Nat)
+    (hi : (markersOn k (traceD σ cfg ops))[i]? = some c)
+    (h0 : (t0, TEv.firstPoll c k') ∈ traceD σ cfg ops) (h1 : (t1, TEv.ev (.innerCall c j)) ∈ traceD σ cfg ops) :
+    σ k i ≠ .error ∧ (σ k i = .pass → t1 = t0) ∧ (∀ ms, σ k i = .latency ms → t0 + ms ≤ t1) := by
+  have hl := (fed_request_lines false σ cfg ops (by intro h; cases h) k i c hi).2
+  have hs := (lines_call hl (mem_trace_mine h0 rfl) (mem_trace_mine h1 rfl)).1
+  cases hd : σ k i with
+  | error => rw [hd] at hs; exact absurd hs (by simp [Sched])
+  | pass => rw [hd] at hs; exact ⟨by simp, fun _ => hs, (by intro ms h; cases h)⟩
+  | latency ms' =>
+      rw [hd] at hs
+      exact ⟨by simp, (by intro h; cases h), (by intro ms h; injection h with h; subst h; exact hs.1)⟩
+
+/-- **…and it IS the stream's latency**: when the runtime does its part (`Timely`: the timer fires at the wake-up
+instant and the woken caller is polled before the clock moves on), the inner call of a request delayed by `ms` is at
+exactly first poll + `ms`. -/
+theorem observed_latency_exact (σ : Nat → Nat → Decision) (cfg : Cfg) (ops : List ROp)
+    (ht : Timely cfg (annotated σ cfg init ops)) (k i c t0 k' t1 j ms : Nat)
+    (hi : (markersOn k (traceD σ cfg ops))[i]? = some c)
+    (h0 : (t0, TEv.firstPoll c k') ∈ traceD σ cfg ops) (h1 : (t1, TEv.ev (.innerCall c j)) ∈ traceD σ cfg ops)
+    (hd : σ k i = .latency ms) : t1 = t0 + ms ∧ t1 - t0 = ms := by
+  have hl := (fed_request_lines true σ cfg ops (fun _ => ht) k i c hi).2
+  have hs := (lines_call hl (mem_trace_mine h0 rfl) (mem_trace_mine h1 rfl)).1
+  rw [hd] at hs
+  have := hs.2 rfl
+  exact ⟨this, by omega⟩
+
+/-- **Injected latency always lies within `[min_latency, max_latency]`, as observed in the log**: for every admissible
+family of streams (every seed, every decision function within the boundary clauses) and every timely schedule, the
+distance from the `first_poll` line to the `inner_call` line of a delayed request lies in `[min, max]` ms when
+`min ≤ max` — including `min = max`, where it is exactly `min` — and is exactly `min` when `min > max` (the interval
+of the property is empty then; `if max_ms > min_ms { random_range(min_ms..=max_ms) } else { min_ms }`,
+service.rs:80-84). -/
+theorem observed_latency_in_bounds (σ : Nat → Nat → Decision) (cfg : Cfg) (ops : List ROp)
+    (hσ : ∀ k i, allowedDec cfg (σ k i) = true) (ht : Timely cfg (annotated σ cfg init ops))
+    (k i c t0 k' t1 j ms : Nat) (hi : (markersOn k (traceD σ cfg ops))[i]? = some c)
+    (h0 : (t0, TEv.firstPoll c k') ∈ traceD σ cfg ops) (h1 : (t1, TEv.ev (.innerCall c j)) ∈ traceD σ cfg ops)
+    (hd : σ k i = .latency ms) :
+    (cfg.minMs ≤ cfg.maxMs → cfg.minMs ≤ t1 - t0 ∧ t1 - t0 ≤ cfg.maxMs) ∧ (cfg.maxMs ≤ cfg.minMs → t1 - t0 = cfg.minMs) := by
+  have he := (observed_latency_exact σ cfg ops ht k i c t0 k' t1 j ms hi h0 h1 hd).2
+  rw [he]
+  exact latency_in_range cfg ms (by rw [← hd]; exact hσ k i)
+
+/-- Without any assumption on the schedule the observed latency is never below `min_latency` (a caller that is polled
+late sees the inner call late: the upper bound is the runtime's part). -/
+theorem observed_latency_at_least_min (σ : Nat → Nat → Decision) (cfg : Cfg) (ops : List ROp)
+    (hσ : ∀ k i, allowedDec cfg (σ k i) = true)
+    (k i c t0 k' t1 j ms : Nat) (hi : (markersOn k (traceD σ cfg ops))[i]? = some c)
+    (h0 : (t0, TEv.firstPoll c k') ∈ traceD σ cfg ops) (h1 : (t1, TEv.ev (.innerCall c j)) ∈ traceD σ cfg ops)
+    (hd : σ k i = .latency ms) : cfg.minMs ≤ t1 - t0 := by
+  have h := (observed_latency_at_least σ cfg ops k i c t0 k' t1 j hi h0 h1).2.2 ms hd
+  have ha : allowedDec cfg (.latency ms) = true := by rw [← hd]; exact hσ k i
+  have hr := latency_in_range cfg ms ha
+  have hm : cfg.minMs ≤ ms := by
+    by_cases hle : cfg.minMs ≤ cfg.maxMs
+    · exact (hr.1 hle).1
+    · have := hr.2 (by omega); omega
+  omega
+
+/-- **Injected latencies are reproducible, as observed**: the `i`-th requests first polled on service `k` in two timely
+runs under the same streams that both reached the wrapped service did so after the same delay. -/
+theorem log_latencies_deterministic (σ : Nat → Nat → Decision) (cfg : Cfg) (ops₁ ops₂ : List ROp)
+    (ht₁ : Timely cfg (annotated σ cfg init ops₁)) (ht₂ : Timely cfg (annotated σ cfg init ops₂))
+    (k i c₁ c₂ a₀ a₁ b₀ b₁ k₁ k₂ j₁ j₂ : Nat)
+    (h₁ : (markersOn k (traceD σ cfg ops₁))[i]? = some c₁) (h₂ : (markersOn k (traceD σ cfg ops₂))[i]? = some c₂)
+    (ha₀ : (a₀, TEv.firstPoll c₁ k₁) ∈ traceD σ cfg ops₁) (ha₁ : (a₁, TEv.ev (.innerCall c₁ j₁)) ∈ traceD σ cfg ops₁)
+    (hb₀ : (b₀, TEv.firstPoll c₂ k₂) ∈ traceD σ cfg ops₂) (hb₁ : (b₁, TEv.ev (.innerCall c₂ j₂)) ∈ traceD σ cfg ops₂) :
+    a₁ - a₀ = b₁ - b₀ := by
+  have ha := observed_latency_at_least σ cfg ops₁ k i c₁ a₀ k₁ a₁ j₁ h₁ ha₀ ha₁
+  have hb := observed_latency_at_least σ cfg ops₂ k i c₂ b₀ k₂ b₁ j₂ h₂ hb₀ hb₁
+  cases hd : σ k i with
+  | error => exact absurd hd ha.1
+  | pass => rw [ha.2.1 hd, hb.2.1 hd]; omega
+  | latency ms =>
+      rw [(observed_latency_exact σ cfg ops₁ ht₁ k i c₁ a₀ k₁ a₁ j₁ ms h₁ ha₀ ha₁ hd).2,
+        (observed_latency_exact σ cfg ops₂ ht₂ k i c₂ b₀ k₂ b₁ j₂ ms h₂ hb₀ hb₁ hd).2]
+
+/-- The run-level form (reported decisions, ghost `decOf`): the lemma behind the three theorems above. -/
+theorem observed_latency_run (x : Bool) (cfg : Cfg) (ops : List Op) (ht : x = true → Timely cfg ops) (c t0 k t1 j : Nat)
+    (h0 : (t0, TEv.firstPoll c k) ∈ trace cfg ops) (h1 : (t1, TEv.ev (.innerCall c j)) ∈ trace cfg ops) :
+    ∃ dec, lookup (run cfg ops).decOf c = some dec ∧ Sched x dec t0 t1 := by
+  obtain ⟨dec, hd, hl, _⟩ := marked_lines (tinv_reachable x cfg ops ht) h0
+  exact ⟨dec, hd, (lines_call hl (mem_trace_mine h0 rfl) (mem_trace_mine h1 rfl)).1⟩
+
+/-! ## the extremes, for whole runs -/
+
+/-- **Error rate 1: EVERY call fails, and none reaches the wrapped service** — composed to runs: for every admissible
+family of streams and every operation list, every request that is polled at all (has a `first_poll` line) has exactly
+two lines: that one and, at the same instant, the injected error; and the log holds no `inner_call` line whatever. -/
+theorem always_fails_every_call (σ : Nat → Nat → Decision) (cfg : Cfg) (ops : List ROp) (he : cfg.eT = P53)
+    (hσ : ∀ k i, allowedDec cfg (σ k i) = true) :
+    (∀ t0 c k, (t0, TEv.firstPoll c k) ∈ traceD σ cfg ops →
+      ∃ tag, mine c (traceD σ cfg ops) = [(t0, .firstPoll c k), (t0, .ev (.result c (injected tag)))]) ∧
+    (∀ t c j, (t, TEv.ev (.innerCall c j)) ∉ traceD σ cfg ops) := by
+  have hall := hall_of_stream σ cfg ops hσ
+  unfold traceD
+  rw [runD_eq_run]
+  constructor
+  · intro t0 c k hm
+    obtain ⟨dec, hd, hl, tl, htl⟩ := marked_lines (tinv_reachable false cfg _ (by intro h; cases h)) hm
+    have : dec = .error := always_fails_at_one cfg dec he (allowed_of_hall hall hd)
+    subst this
+    exact lines_failed hl htl
+  · intro t c j hm
+    exact always_fails_run cfg _ he hall c j (mem_log_of_mem_tlog (synced_reachable cfg _) hm)
+
+/-- **Both rates 0: the layer is transparent for the whole life of every request.** For every admissible family of
+streams and every operation list, every request that is polled at all is forwarded EXACTLY ONCE, AT ITS FIRST POLL
+(the `inner_call` line directly follows the `first_poll` line, at the same instant; there is exactly one `inner_call`
+line for it in the whole log), and what follows is the fate of that one call and nothing else (`Rest`: still running /
+dropped with the caller / completed): every `result` line of the request is THE ANSWER OF THAT CALL, unchanged
+(`answer j out`: `ok:j`, the inner error with its own kind, the panic). -/
+theorem transparent_whole_request (σ : Nat → Nat → Decision) (cfg : Cfg) (ops : List ROp) (he : cfg.eT = 0) (hl : cfg.lT = 0)
+    (hσ : ∀ k i, allowedDec cfg (σ k i) = true) (t0 c k : Nat) (h : (t0, TEv.firstPoll c k) ∈ traceD σ cfg ops) :
+    ∃ j rest, mine c (traceD σ cfg ops) = (t0, .firstPoll c k) :: (t0, .ev (.innerCall c j)) :: rest ∧ Rest c j rest ∧
+      ((traceD σ cfg ops).filter (isCallOf c)).length = 1 ∧
+      ∀ t r, (t, TEv.ev (.result c r)) ∈ traceD σ cfg ops →
+        ∃ out, (t, TEv.ev (.innerDone c j out)) ∈ traceD σ cfg ops ∧ answer j out = some r := by
+  have hall := hall_of_stream σ cfg ops hσ
+  unfold traceD at *
+  rw [runD_eq_run] at *
+  obtain ⟨dec, hd, hlines, tl, htl⟩ := marked_lines (tinv_reachable false cfg _ (by intro h; cases h)) h
+  have : dec = .pass := transparent_at_zero cfg dec he hl (allowed_of_hall hall hd)
+  subst this
+  obtain ⟨j, rest, hm, hr⟩ := lines_passed hlines htl
+  refine ⟨j, rest, hm, hr, ?_, ?_⟩
+  · rw [filter_mine (fun p => isCallOf_owner) _, hm]
+    have h1 : isCallOf c (t0, TEv.firstPoll c k) = false := rfl
+    have h2 : isCallOf c (t0, TEv.ev (Ev.innerCall c j)) = true := by simp [isCallOf]
+    simp only [List.filter_cons, h1, h2, rest_no_call hr c]
+    simp
+  · intro t r hres
+    have hin : (t, TEv.ev (Ev.result c r)) ∈ mine c (run cfg (annotated σ cfg init ops)).tlog :=
+      mem_trace_mine hres rfl
+    rw [hm] at hin
+    simp only [List.mem_cons, Prod.mk.injEq, reduceCtorEq, and_false, false_or, TEv.ev.injEq] at hin
+    obtain ⟨out, hdone, hans⟩ := rest_result hr hin
+    refine ⟨out, ?_, hans⟩
+    have : (t, TEv.ev (Ev.innerDone c j out)) ∈ mine c (run cfg (annotated σ cfg init ops)).tlog := by
+      rw [hm]; simp [hdone]
+    exact (mem_mine.mp this).1
+
+/-! ## an arbitrary `ErrorInjector`
+
+`ErrorInjector` is a public trait; the crate installs only its own two implementations (`TR.Lemmas.ChaosInjector`).
+Every theorem of this file about `run` / `runD` that has no `allowedDec` hypothesis — `decisions_are_stream`,
+`deterministic`, `services_independent`, `error_skips_inner`, `request_lines`, `decision_observable`,
+`log_decisions_are_stream`, `log_inject_sequence_is_stream`, `observed_latency_at_least`, `observed_latency_exact`,
+`latency_exact` — is about the decision TAKEN and holds whatever injector (and whatever decision function) produced
+it. The decision block itself, over an arbitrary injector `inj : payload → roll → Bool` reporting rate `cfg.eT`: -/
+
+/-- the two shipped injectors are today's block -/
+theorem shipped_injectors {γ : Type} (G : Gen γ) (cfg : Cfg) (tag : Nat) (g : γ) :
+    decideI G (fun _ r => decide (r < cfg.eT)) cfg tag g = decideG G cfg g ∧
+    (cfg.eT = 0 → decideI G (fun _ _ => false) cfg tag g = decideG G cfg g) :=
+  ⟨decideI_shipped G cfg tag g, decideI_no_injection G cfg tag g⟩
+
+/-- **What survives for EVERY injector**: an injected latency lies within the bounds and needs a positive latency
+rate; "inject" is decided exactly when the injector returns `Some` for the roll it is handed (a fresh roll if it
+reports a positive rate, the default 1.0 otherwise). -/
+theorem any_injector {γ : Type} (G : Gen γ) (inj : Nat → Nat → Bool) (cfg : Cfg) (tag : Nat) (g : γ) (hL : Lawful cfg G) :
+    (∀ ms, (decideI G inj cfg tag g).1 = .latency ms → cfg.lT > 0 ∧
+      (cfg.minMs ≤ cfg.maxMs → cfg.minMs ≤ ms ∧ ms ≤ cfg.maxMs) ∧ (cfg.maxMs ≤ cfg.minMs → ms = cfg.minMs)) ∧
+    ((decideI G inj cfg tag g).1 = .error ↔ inj tag (errorRoll G cfg g) = true) :=
+  ⟨fun ms h => ⟨decideI_latency_pos G inj cfg tag g ms h, decideI_latency_range G inj cfg tag g ms hL h⟩,
+   decideI_error_iff G inj cfg tag g⟩
+
+/-- **What each extreme needs of the injector**: "rate 0 ⇒ never an error, both rates 0 ⇒ transparent without a draw"
+— that it declines the default roll 1.0; "rate 1 ⇒ every call fails" — that it accepts every roll below 1; all boundary
+clauses — that it injects exactly below the rate it reports. -/
+theorem injector_extremes {γ : Type} (G : Gen γ) (inj : Nat → Nat → Bool) (cfg : Cfg) (tag : Nat) (g : γ) (hL : Lawful cfg G) :
+    (cfg.eT = 0 → inj tag P53 = false →
+      (decideI G inj cfg tag g).1 ≠ .error ∧ (cfg.lT = 0 → decideI G inj cfg tag g = (.pass, g))) ∧
+    (cfg.eT = P53 → (∀ r, r < P53 → inj tag r = true) → (decideI G inj cfg tag g).1 = .error) ∧
+    ((∀ r, inj tag r = decide (r < cfg.eT)) → allowedDec cfg (decideI G inj cfg tag g).1 = true) :=
+  ⟨fun he hd => decideI_never_at_zero G inj cfg tag g he hd,
+   fun he ha => decideI_always_at_one G inj cfg tag g hL he ha,
+   fun hx => decideI_allowed G inj cfg tag g hL hx⟩
+
+/-- **"A function of the seed and the order of requests" needs an injector that does not read the request**: then the
+decisions of any two payload sequences of the same length agree (for the shipped injector they are today's stream);
+an injector that reads the request gives, for the same seed and position, different decisions for different payloads. -/
+theorem injector_and_determinism {γ : Type} (G : Gen γ) (cfg : Cfg) (g : γ) :
+    (∀ inj : Nat → Nat → Bool, (∀ t t' r, inj t r = inj t' r) → ∀ tags tags' : List Nat, tags.length = tags'.length →
+      streamI G inj cfg g tags = streamI G inj cfg g tags') ∧
+    (∀ tags, streamI G (fun _ r => decide (r < cfg.eT)) cfg g tags = streamG G cfg g tags.length) ∧
+    (cfg.lT = 0 → (decideI G (fun tag _ => tag % 2 == 1) cfg 1 g).1 ≠ (decideI G (fun tag _ => tag % 2 == 1) cfg 2 g).1) := by
+  refine ⟨fun inj hind tags tags' hlen => streamI_payload_independent G inj cfg hind g tags tags' hlen,
+    fun tags => streamI_shipped G cfg g tags, fun hl => ?_⟩
+  have := injector_reading_the_request G cfg g hl
+  rw [this.1, this.2]; simp
+
+/-- Legal injectors that break a clause: one that ignores the roll fails every call at "rate 0" (no transparency); one
+that reports rate 1 and never injects fails nothing — and delays nothing, at any latency rate. -/
+theorem injectors_breaking_the_extremes {γ : Type} (G : Gen γ) (cfg : Cfg) (tag : Nat) (g : γ) (hL : Lawful cfg G) :
+    (cfg.eT = 0 → cfg.lT = 0 → decideI G (fun _ _ => true) cfg tag g = (.error, g)) ∧
+    (cfg.eT = P53 → decideI G (fun _ _ => false) cfg tag g = (.pass, (G.nextF g).2)) :=
+  ⟨fun he hl => injector_ignoring_the_roll G cfg tag g he hl,
+   fun he => injector_reporting_a_rate_it_ignores G cfg tag g hL he⟩
+
 /-! ## non-vacuity -/
 
 /-- The stress check accepts the tallies of a lawful stream and rejects what a request that skips its
@@ -536,8 +861,14 @@ example :
     let ops := [Op.arrive 1 0 11 ⟨0, .ok⟩, .arrive 2 0 12 ⟨0, .ok⟩, .arrive 3 0 13 ⟨0, .err 1⟩,
                 .poll 1 (some .error), .poll 2 (some (.latency 3)), .poll 3 (some .pass),
                 .adv 2, .poll 2 none, .adv 1, .poll 2 none]
+    (run cfg ops).tlog =
+      [(0, .firstPoll 1 0), (0, .ev (.result 1 (.inner 99 11))),
+       (0, .firstPoll 2 0),
+       (0, .firstPoll 3 0), (0, .ev (.innerCall 3 0)), (0, .ev (.innerDone 3 0 (.err 1))), (0, .ev (.result 3 (.inner 1 0))),
+       (3, .ev (.innerCall 2 1)), (3, .ev (.innerDone 2 1 .ok)), (3, .ev (.result 2 (.ok 1)))] ∧
     (run cfg ops).log =
-      [.result 1 (.inner 99 11), .innerCall 3 0, .innerDone 3 0 (.err 1), .result 3 (.inner 1 0),
+      [.raw "first_poll 1 svc=0", .result 1 (.inner 99 11), .raw "first_poll 2 svc=0", .raw "first_poll 3 svc=0",
+       .innerCall 3 0, .innerDone 3 0 (.err 1), .result 3 (.inner 1 0),
        .innerCall 2 1, .innerDone 2 1 .ok, .result 2 (.ok 1)] ∧
     decsOn (run cfg ops) 0 = [.error, .latency 3, .pass] ∧ (run cfg ops).now = 3 := by
   decide
@@ -547,7 +878,7 @@ layer reports "passed through". -/
 example :
     let cfg : Cfg := { eT := P53, lT := 0, minMs := 0, maxMs := 0 }
     (run cfg [Op.arrive 1 0 11 ⟨0, .ok⟩, .poll 1 (some .pass)]).log =
-      [.raw "choice-not-allowed", .innerCall 1 0, .innerDone 1 0 .ok, .result 1 (.ok 0)] := by
+      [.raw "first_poll 1 svc=0", .raw "choice-not-allowed", .innerCall 1 0, .innerDone 1 0 .ok, .result 1 (.ok 0)] := by
   decide
 
 /-- Every handle dropped between the arrivals and the first polls (`let f = svc.call(r); drop(svc); f.await`):
@@ -558,7 +889,9 @@ example :
     let ops := [Op.arrive 1 0 11 ⟨0, .ok⟩, .arrive 2 0 12 ⟨0, .ok⟩, .dropsvc, .arrive 3 0 13 ⟨0, .ok⟩,
                 .poll 1 (some .error), .poll 2 (some (.latency 1500)), .poll 3 none,
                 .adv 1499, .poll 2 none, .adv 1, .poll 2 none]
-    (run cfg ops).log = [.result 1 (.inner 99 11), .innerCall 2 0, .innerDone 2 0 .ok, .result 2 (.ok 0)] ∧
+    (run cfg ops).tlog =
+      [(0, .firstPoll 1 0), (0, .ev (.result 1 (.inner 99 11))), (0, .firstPoll 2 0),
+       (1500, .ev (.innerCall 2 0)), (1500, .ev (.innerDone 2 0 .ok)), (1500, .ev (.result 2 (.ok 0)))] ∧
     decsOn (run cfg ops) 0 = [.error, .latency 1500] ∧ (run cfg ops).now = 1500 ∧ (run cfg ops).gone = true := by
   decide
 
@@ -579,5 +912,122 @@ example :
     decsOn (runD σ cfg ops) 0 = [.error, .latency 2] ∧ decsOn (runD σ cfg ops) 1 = [.error, .latency 2] ∧
     lookup (runD σ cfg ops).decOf 3 = some .error ∧ lookup (runD σ cfg ops).decOf 4 = some .error := by
   decide
+
+/-- A run fed from a stream, under the poll discipline, with its timestamped log: service 0 decides
+`[delay 3, inject, pass, delay 2]` for the requests in the order of their `first_poll` lines (1, 2, 3, 4). Request 1:
+first polled at 0, inner call at 3 = 0 + 3; request 2: the injected error at the instant of its first poll and no inner
+call; request 3: inner call in its first poll, its result is the inner error, unchanged; request 4: first polled at 1,
+inner call at 3 = 1 + 2. (Hypotheses of `log_decisions_are_stream`, `observed_latency_exact`,
+`observed_latency_in_bounds`, `log_inject_sequence_is_stream`.) -/
+example :
+    let cfg : Cfg := { eT := P53 / 2, lT := P53 / 2, minMs := 2, maxMs := 5 }
+    let σ : Nat → Nat → Decision := fun _ i => [Decision.latency 3, .error, .pass, .latency 2].getD i .pass
+    let ops := [ROp.arrive 1 0 11 ⟨1, .ok⟩, .arrive 2 0 12 ⟨0, .ok⟩, .arrive 3 0 13 ⟨0, .err 7⟩, .arrive 4 0 14 ⟨0, .ok⟩,
+                .poll 1, .adv 1, .poll 2, .poll 3, .poll 4, .adv 2, .poll 1, .poll 4, .adv 1, .poll 1]
+    Timely cfg (annotated σ cfg init ops) ∧ (∀ k i, allowedDec cfg (σ k i) = true) ∧
+    traceD σ cfg ops =
+      [(0, .firstPoll 1 0),
+       (1, .firstPoll 2 0), (1, .ev (.result 2 (.inner 99 12))),
+       (1, .firstPoll 3 0), (1, .ev (.innerCall 3 0)), (1, .ev (.innerDone 3 0 (.err 7))), (1, .ev (.result 3 (.inner 7 0))),
+       (1, .firstPoll 4 0),
+       (3, .ev (.innerCall 1 1)),
+       (3, .ev (.innerCall 4 2)), (3, .ev (.innerDone 4 2 .ok)), (3, .ev (.result 4 (.ok 2))),
+       (4, .ev (.innerDone 1 1 .ok)), (4, .ev (.result 1 (.ok 1)))] ∧
+    markersOn 0 (traceD σ cfg ops) = [1, 2, 3, 4] ∧
+    (markersOn 0 (traceD σ cfg ops)).map (injectedIn (traceD σ cfg ops)) = [false, true, false, false] ∧
+    mine 1 (traceD σ cfg ops) =
+      [(0, .firstPoll 1 0), (3, .ev (.innerCall 1 1)), (4, .ev (.innerDone 1 1 .ok)), (4, .ev (.result 1 (.ok 1)))] := by
+  refine ⟨timelyB_sound _ _ _ (by decide), ?_, by decide, by decide, by decide, by decide⟩
+  intro _ i
+  match i with
+  | 0 => show allowedDec _ (Decision.latency 3) = true; decide
+  | 1 => show allowedDec _ Decision.error = true; decide
+  | 2 => show allowedDec _ Decision.pass = true; decide
+  | 3 => show allowedDec _ (Decision.latency 2) = true; decide
+  | _ + 4 => show allowedDec _ Decision.pass = true; decide
+
+/-- The poll discipline is needed for the upper bound: a caller that is polled 10 ms after a first poll that decided
+"delay by 3" sees the inner call 10 ms after its first poll. (And `observed_latency_at_least` still holds: 10 ≥ 3.) -/
+example :
+    let cfg : Cfg := { eT := 0, lT := P53, minMs := 2, maxMs := 5 }
+    let ops := [Op.arrive 1 0 11 ⟨0, .ok⟩, .poll 1 (some (.latency 3)), .adv 10, .poll 1 none]
+    ¬ Timely cfg ops ∧
+    trace cfg ops = [(0, .firstPoll 1 0), (10, .ev (.innerCall 1 0)), (10, .ev (.innerDone 1 0 .ok)), (10, .ev (.result 1 (.ok 0)))] := by
+  refine ⟨?_, by decide⟩
+  intro h
+  have := h.2.2.1 10 rfl 1 3 ⟨0, .ok⟩ (by decide)
+  exact absurd this (by decide)
+
+/-- `min = max` and `min > max`: the observed latency is exactly `min` (7 ms with bounds [7, 7] and with bounds
+"[7, 3]"); any other reported latency is flagged. -/
+example :
+    let ops := [Op.arrive 1 0 11 ⟨0, .ok⟩, .poll 1 (some (.latency 7)), .adv 7, .poll 1 none]
+    let lines := [(0, TEv.firstPoll 1 0), (7, .ev (.innerCall 1 0)), (7, .ev (.innerDone 1 0 .ok)), (7, .ev (.result 1 (.ok 0)))]
+    trace { eT := 0, lT := P53, minMs := 7, maxMs := 7 } ops = lines ∧
+    trace { eT := 0, lT := P53, minMs := 7, maxMs := 3 } ops = lines ∧
+    timelyB { eT := 0, lT := P53, minMs := 7, maxMs := 3 } init ops = true ∧
+    (trace { eT := 0, lT := P53, minMs := 7, maxMs := 3 }
+      [Op.arrive 1 0 11 ⟨0, .ok⟩, .poll 1 (some (.latency 3))]) = [(0, .firstPoll 1 0), (0, .ev (.raw "choice-not-allowed"))] := by
+  decide
+
+/-- Error rate 1, a whole run on two services (hypotheses of `always_fails_every_call`, `always_fails_run`,
+`always_fails_after_handles_dropped`): every polled request has its `first_poll` line and the injected error at the
+same instant, nothing else; request 3 is never polled and has no line. -/
+example :
+    let cfg : Cfg := { eT := P53, lT := P53 / 2, minMs := 1, maxMs := 4 }
+    let σ : Nat → Nat → Decision := fun _ _ => .error
+    let ops := [ROp.arrive 1 0 11 ⟨0, .ok⟩, .arrive 2 1 12 ⟨3, .ok⟩, .arrive 3 0 13 ⟨0, .ok⟩, .poll 2, .adv 5, .dropsvc, .poll 1,
+                .poll 2, .drop 3]
+    (∀ k i, allowedDec cfg (σ k i) = true) ∧
+    traceD σ cfg ops = [(0, .firstPoll 2 1), (0, .ev (.result 2 (.inner 99 12))),
+                        (5, .firstPoll 1 0), (5, .ev (.result 1 (.inner 99 11)))] := by
+  refine ⟨fun _ _ => (by show allowedDec _ Decision.error = true; decide), by decide⟩
+
+/-- Both rates 0, a whole run (hypotheses of `transparent_whole_request`, `transparent_run`): every polled request is
+forwarded once, in its first poll; its result is the answer of that call (`ok:0`, the inner error 4 of call 1, nothing
+for the call that was dropped). -/
+example :
+    let cfg : Cfg := { eT := 0, lT := 0, minMs := 1, maxMs := 4 }
+    let σ : Nat → Nat → Decision := fun _ _ => .pass
+    let ops := [ROp.arrive 1 0 11 ⟨2, .ok⟩, .arrive 2 0 12 ⟨0, .err 4⟩, .arrive 3 1 13 ⟨9, .ok⟩, .poll 1, .adv 1, .poll 2, .poll 3,
+                .adv 1, .poll 1, .drop 3]
+    (∀ k i, allowedDec cfg (σ k i) = true) ∧
+    traceD σ cfg ops =
+      [(0, .firstPoll 1 0), (0, .ev (.innerCall 1 0)),
+       (1, .firstPoll 2 0), (1, .ev (.innerCall 2 1)), (1, .ev (.innerDone 2 1 (.err 4))), (1, .ev (.result 2 (.inner 4 1))),
+       (1, .firstPoll 3 1), (1, .ev (.innerCall 3 2)),
+       (2, .ev (.innerDone 1 0 .ok)), (2, .ev (.result 1 (.ok 0))),
+       (2, .ev (.innerDrop 3 2))] ∧
+    answer 1 (.err 4) = some (.inner 4 1) := by
+  refine ⟨fun _ _ => (by show allowedDec _ Decision.pass = true; decide), by decide, by decide⟩
+
+/-- Caller modes (hypotheses of `transparent_any_caller_mode`, `caller_mode_irrelevant`, `refused_request_is_not_made`):
+`readyclone` over a strict wrapped service that answers ready twice is admitted, uses two answers, and the machine's
+`arrive` is made; with the second answer "pending" the request is refused and the machine is untouched. -/
+example :
+    let cfg : Cfg := { eT := 0, lT := 0, minMs := 0, maxMs := 0 }
+    let p : Proto := { strict := true, script := [.ready, .ready, .error], dflt := .clone }
+    let q : Proto := { strict := true, script := [.ready, .pending], dflt := .clone }
+    (gate .readyclone p.script).1 = true ∧ known init 1 = false ∧ init.gone = false ∧ allowedDec cfg .pass = true ∧
+    (arriveVia cfg p init .readyclone 1 0 11 ⟨0, .ok⟩).1.script = [.error] ∧
+    (arriveVia cfg p init .readyclone 1 0 11 ⟨0, .ok⟩).2.1.phase = [(1, .fresh 0 11 ⟨0, .ok⟩)] ∧
+    (gate .readyclone q.script).1 = false ∧
+    (arriveVia cfg q init .readyclone 1 0 11 ⟨0, .ok⟩).2.2 = [.result 1 .notReady] ∧
+    (arriveVia cfg q init .readyclone 1 0 11 ⟨0, .ok⟩).2.1.phase = [] := by
+  decide
+
+/-- Injectors: the shipped one satisfies the hypothesis of `injector_extremes` (3rd part) by definition; an injector
+below rate 1/2 declines the default roll; one that ignores the roll fails a request at rates 0/0; one that reads the
+request decides differently for payloads 1 and 2 in the same generator state. -/
+example :
+    let cfg : Cfg := { eT := 0, lT := 0, minMs := 1, maxMs := 4 }
+    (∀ r, (fun (_ : Nat) r => decide (r < cfg.eT)) 7 r = decide (r < cfg.eT)) ∧
+    (fun (_ : Nat) r => decide (r < P53 / 2)) 7 P53 = false ∧
+    decideI counterGen (fun _ _ => true) cfg 7 0 = (.error, 0) ∧
+    (decideI counterGen (fun tag _ => tag % 2 == 1) cfg 1 0).1 = .error ∧
+    (decideI counterGen (fun tag _ => tag % 2 == 1) cfg 2 0).1 = .pass ∧
+    streamI counterGen (fun tag _ => tag % 2 == 1) cfg 0 [1, 2, 3] = [.error, .pass, .error] ∧
+    streamI counterGen (fun tag _ => tag % 2 == 1) cfg 0 [2, 4, 6] = [.pass, .pass, .pass] := by
+  refine ⟨fun _ => rfl, by decide, by decide, by decide, by decide, by decide, by decide⟩
 
 end TR.Props.C19
